@@ -168,9 +168,49 @@ def build(p, ctx=None):
     raise ValueError(op)
 
 
+def decoy_of(p):
+    """the same pipeline over other data: every dict source keeps its key names but in reversed order and with
+    other values, every list source is reversed and shifted"""
+    import copy as _copy
+    q = _copy.deepcopy(p)
+
+    def walk(n):
+        if n['op'] == 'dict':
+            n['kvs'] = [[k, (v + 1000 if isinstance(v, int) and not isinstance(v, bool) else v)] for k, v in reversed(n['kvs'])]
+        elif n['op'] == 'list':
+            n['xs'] = [(v + 1000 if isinstance(v, int) and not isinstance(v, bool) else v) for v in reversed(n['xs'])]
+        if 'p' in n:
+            walk(n['p'])
+        for c in n.get('ps', []):
+            walk(c)
+    walk(q)
+    return q
+
+
+def run_decoy(p, idx, keys, ctx):
+    """another dataset of the same shape (same classes, same key names at other positions) is built, read by every
+    path and kept alive while the one under test is observed: nothing a dataset learnt may leak into another one"""
+    try:
+        d = build(decoy_of(p), Ctx(source_mode=getattr(ctx, 'source_mode', 'pickle')))
+    except (KeyboardInterrupt, SystemExit):
+        raise
+    except BaseException:  # noqa
+        return None
+    for probe in ([lambda: list(itertools.islice(iter(d), 50)), lambda: list(d.keys()), lambda: list(itertools.islice(iter(d.items()), 50))]
+                  + [lambda k=k: d[k] for k in keys] + [lambda i=i: d[i] for i in idx[:6]]):
+        try:
+            probe()
+        except (KeyboardInterrupt, SystemExit):
+            raise
+        except BaseException:  # noqa
+            pass
+    return d
+
+
 def observe(p, idx, keys, cycle_k=0, ctx=None):
     """the `pipe` observation record; same shape as the driver's reply"""
     common.gc_point()
+    decoy = run_decoy(p, idx, keys, ctx) if getattr(ctx, 'source_mode', 'pickle') in ('copy', 'from', 'wu') else None
     try:
         ds = build(p, ctx)
     except (KeyboardInterrupt, SystemExit):
@@ -209,4 +249,5 @@ def observe(p, idx, keys, cycle_k=0, ctx=None):
     # repeatability (C01): iterate again after every other observation
     r['iter2'] = run_stream(lambda: dsi, limit=limit)
     r['keys2'] = outcome(lambda: list(ds.keys()))      # asking again must not change the answer
+    del decoy
     return r, ds
